@@ -16,6 +16,14 @@ CHECKS = {
             "Complete within the stated alphabets and bounds; says nothing about longer programs or non-boundary 32/64-bit values.",
             "trusts orc_executor_emulate as the oracle (C02 checks it), the host CPU, gcc; harness array/guard layout",
             "DESIGN.md 4/C01", True),
+    "C09": ("xhist", "model_checking",
+            "explicit-state breadth-first search over operation histories on the real allocator, canonical-state deduplication, invariants + interval-set reference model in every state",
+            "All alloc/compile/free histories up to the stated depth over a size alphabet that forces exact fit, split, tiny remainder, region "
+            "exhaustion and new-region paths are executed on the real code (each transition in a fresh fork of the replayed state); every "
+            "reached state is checked for tiling, coalescing, disjoint live objects with intact bytes (compiled functions are re-run), "
+            "reuse against an interval-set model, and the free-everything / repeat-history closure.",
+            "walker hook orc_verif_codemem_walk reports the chunk lists faithfully; sizes above one region and multi-threaded histories excluded",
+            "DESIGN.md 4/C09", True),
 }
 
 NOT_YET = {}
@@ -56,6 +64,8 @@ def main():
             "add_only": True,
         },
         "engines": [
+            {"name": "xhist", "path": "engines/xhist.c", "serves_properties": ["C09"],
+             "kind_free_text": "explicit-state BFS over histories; state rebuilt by replay in forked children of an initialised zygote"},
             {"name": "xprog", "path": "engines/xprog.c", "serves_properties": ["C01"],
              "kind_free_text": "in-process bounded exhaustive explorer: program space x targets x n x alignment x value tables, JIT vs emulation"},
         ],
